@@ -273,12 +273,23 @@ Definition emit_blocking (q : rquirks) (ls : srclines) (o : options) (anc : list
   end.
 
 (* ------------------------------------------------------------------ the three commands *)
-Definition unwrap_report (q : rquirks) (ls : srclines) (c : config) (file : list node) : list rep :=
+(* check(): nothing is analysed unless config.<enabled> (_should_analyze; language and content are the harness's: Rust files
+   with content; ignore patterns are C05's) *)
+Definition enabled_of (tbl : list (string * (string * bool))) (o : options) : bool := getcfg tbl o analyze_enabled_field.
+
+Definition unwrap_scan (q : rquirks) (ls : srclines) (c : config) (file : list node) : list rep :=
   walk_file (push_m q) (emit_unwrap q ls (c_unwrap c)) [] file.
-Definition clone_report (q : rquirks) (ls : srclines) (c : config) (file : list node) : list rep :=
+Definition clone_scan (q : rquirks) (ls : srclines) (c : config) (file : list node) : list rep :=
   walk_file (push_m q) (emit_clone q ls (c_clone c)) [] file.
-Definition blocking_report (q : rquirks) (ls : srclines) (c : config) (file : list node) : list rep :=
+Definition blocking_scan (q : rquirks) (ls : srclines) (c : config) (file : list node) : list rep :=
   walk_file (push_m q) (emit_blocking q ls (c_blocking c)) [] file.
+
+Definition unwrap_report (q : rquirks) (ls : srclines) (c : config) (file : list node) : list rep :=
+  if enabled_of unwrap_cfg (c_unwrap c) then unwrap_scan q ls c file else [].
+Definition clone_report (q : rquirks) (ls : srclines) (c : config) (file : list node) : list rep :=
+  if enabled_of clone_cfg (c_clone c) then clone_scan q ls c file else [].
+Definition blocking_report (q : rquirks) (ls : srclines) (c : config) (file : list node) : list rep :=
+  if enabled_of blocking_cfg (c_blocking c) then blocking_scan q ls c file else [].
 
 Definition report (q : rquirks) (ls : srclines) (c : config) (file : list node) : list rep :=
   unwrap_report q ls c file ++ clone_report q ls c file ++ blocking_report q ls c file.
